@@ -60,8 +60,14 @@ func (d *DAGMutex[T]) RLock(ids ...T) {
 // RUnlock unlocks reading for all given entities.
 // It does not affect other simultaneous readers.
 func (d *DAGMutex[T]) RUnlock(ids ...T) {
-	for _, mutex := range d.unregisterMutexes(ids...) {
+	// the entities that precede an unregistered id have been unregistered: they must also be read-unlocked before the
+	// misuse is reported, otherwise their reader count stays raised forever and blocks every later writer.
+	mutexes, err := d.unregisterMutexes(ids...)
+	for _, mutex := range mutexes {
 		mutex.RUnlock()
+	}
+	if err != nil {
+		panic(err)
 	}
 }
 
@@ -118,22 +124,22 @@ func (d *DAGMutex[T]) registerMutex(id T) (mutex *StarvingMutex) {
 	return mutex
 }
 
-func (d *DAGMutex[T]) unregisterMutexes(ids ...T) (mutexes []*StarvingMutex) {
+func (d *DAGMutex[T]) unregisterMutexes(ids ...T) (mutexes []*StarvingMutex, err error) {
 	d.Mutex.Lock()
 	defer d.Mutex.Unlock()
 
 	mutexes = make([]*StarvingMutex, 0)
 	for _, id := range ids {
-		mutex, err := d.unregisterMutex(id)
-		if err != nil {
-			panic(err)
+		mutex, unregisterErr := d.unregisterMutex(id)
+		if unregisterErr != nil {
+			return mutexes, unregisterErr
 		}
 		if mutex != nil {
 			mutexes = append(mutexes, mutex)
 		}
 	}
 
-	return mutexes
+	return mutexes, nil
 }
 
 func (d *DAGMutex[T]) unregisterMutex(id T) (mutex *StarvingMutex, err error) {
